@@ -19,18 +19,46 @@ import (
 
 type muteServer struct {
 	l      net.Listener
+	pc     net.PacketConn // same port over UDP: answers every datagram with TC set (scheme udp: the tcp fallback hits the mute listener)
 	mu     sync.Mutex
 	opened int
 	closed int
 	accept chan struct{}
 }
 
-func newMuteServer() (*muteServer, error) {
+func newMuteServer(withUDP bool) (*muteServer, error) {
 	l, err := net.Listen("tcp", "127.0.0.1:0")
 	if err != nil {
 		return nil, err
 	}
 	s := &muteServer{l: l, accept: make(chan struct{}, 64)}
+	if withUDP {
+		pc, err := net.ListenPacket("udp", l.Addr().String())
+		if err != nil {
+			l.Close()
+			return nil, err
+		}
+		s.pc = pc
+		go func() {
+			b := make([]byte, 4096)
+			for {
+				n, from, err := pc.ReadFrom(b)
+				if err != nil {
+					return
+				}
+				m := new(dns.Msg)
+				if m.Unpack(b[:n]) != nil {
+					continue
+				}
+				r := new(dns.Msg)
+				r.SetReply(m)
+				r.Truncated = true
+				if rb, err := r.Pack(); err == nil {
+					pc.WriteTo(rb, from)
+				}
+			}
+		}()
+	}
 	go func() {
 		for {
 			c, err := l.Accept()
@@ -64,17 +92,20 @@ func (s *muteServer) counts() (int, int) {
 	return s.opened, s.closed
 }
 
-var schemes = []string{"tls", "tls+pipeline", "tcp", "tcp+pipeline"}
+var schemes = []string{"tls", "tls+pipeline", "tcp", "tcp+pipeline", "udp"}
 
 // one runs one variant: 0 = unbounded caller context against the mute server (the exchange must come back
 // on the transport's own timeouts), 1 = Close while the dial / exchange is stuck (the exchange must come
 // back at once and every socket must be released).
 func one(scheme int, variant int, limit time.Duration) (returned, within, released bool, note string) {
-	srv, err := newMuteServer()
+	srv, err := newMuteServer(schemes[scheme] == "udp")
 	if err != nil {
 		return false, false, false, "listen: " + err.Error()
 	}
 	defer srv.l.Close()
+	if srv.pc != nil {
+		defer srv.pc.Close()
+	}
 	u, err := upstream.NewUpstream(fmt.Sprintf("%s://%s", schemes[scheme], srv.l.Addr().String()), upstream.Opt{})
 	if err != nil {
 		return false, false, false, "NewUpstream: " + err.Error()
